@@ -558,6 +558,28 @@ def run_temperatures(acc, mode):
         o = run_op(lambda: [k for k, q in sorted(lst, key=lambda kq: kq[1])])
         if o[0] != "ok" or o[1] != sorted(k for k, q in lst):
             acc.violation(["covariance", "sorted", "temperature-scales", "comparison-depends-on-the-scale-used", mode], {"mode": mode, "rotation": rot}, "ascending kelvin values", show(o))
+    # products and quotients with an ordinary quantity, in the mode that allows them for offset units: the same
+    # temperature in any scale gives the same physical result, in both operand orders
+    areg = regs.default("Fraction" if mode == "Fraction" else "float", autoconvert_offset_to_baseunit=True)
+    lm = "Fraction" if mode == "Fraction" else "float"
+    for partner in (("2", "meter*second"), ("3", ""), ("5", "1/second")):
+        for ka, va in TEMPS.items():
+            for op in ("*", "/"):
+                for order in ("T.P", "P.T"):
+                    outs = []
+                    for sa in va:
+                        if sa[1] == "millikelvin":
+                            continue
+                        acc.ev()
+                        acc.nt(("temp-prod", mode, op, order, sa, partner))
+                        t, pq = mk_leaf(areg, lm, sa), mk_leaf(areg, lm, partner)
+                        o = run_op(lambda: (BIN[op](t, pq) if order == "T.P" else BIN[op](pq, t)).to_root_units())
+                        outs.append((sa, o))
+                    ref = outs[0][1]
+                    for sa, o in outs[1:]:
+                        same_ = o[0] == ref[0] and (o[0] != "ok" or (dict(o[1]._units) == dict(ref[1]._units) and (o[1].magnitude == ref[1].magnitude if mode == "Fraction" else abs(float(o[1].magnitude) - float(ref[1].magnitude)) <= 1e-9 * abs(float(ref[1].magnitude)))))
+                        if not same_:
+                            acc.violation(["covariance", op, "temperature-scales", "product-depends-on-the-scale-used", mode], {"mode": mode, "temperature": list(sa), "reference": list(outs[0][0]), "partner": list(partner), "order": order}, show(ref), show(o))
     acc.sample({"clause": "covariance", "what": "temperature comparisons", "mode": mode, "example": "Q(26.85, degC) > Q(280, K)  ==  Q(300, K) > Q(280, K)"})
 
 
@@ -601,7 +623,7 @@ MANIFEST = {
     "Fraction registry are compared exactly; 1-d ndarray magnitudes in the float registry (where in-place forms really are in place) with 1e-9. Each tree's results must agree across spellings, "
     "match an exact value/dimension calculator written from the property statement (which decides DimensionalityError / number-acceptance clauses), and leave every operand other than an in-place "
     "target bit-identical. The six comparison operators and sorted() are additionally run over 4 absolute temperatures, each written in every scale of the bundled registry (K, degC, degF, degR, mK): every "
-    "ordered pair of spellings must compare as the kelvin values do.",
+    "ordered pair of spellings must compare as the kelvin values do, and in an autoconvert registry their products and quotients with ordinary quantities (compound, dimensionless, inverse) must not depend on the scale, in either operand order.",
     "note": "Trusted: the 80-line reference calculator and R1 factors. Arithmetic on offset units is C06's subject (only their comparisons are covered here); trees deeper than 2 and leaves outside the alphabet are outside the bound; ZeroDivision outcomes "
     "for float/ndarray magnitudes are not compared (IEEE inf/nan semantics).",
     "ref": "DESIGN.md §4 C03",
